@@ -212,6 +212,9 @@ def decode_pack(g, p):
         spl = {"id": "X0", "type": "Splitter", "setup": g.pick([0, 0, 1]) if p["setup"] else 0,
                "blocking": True if not p["nonblocking"] else g.chance(3, 4),
                "delay": delay_spec(g, p["zero_delays"]), "in_sel": None, "out_sel": None}
+        sq = g.pick([None, None, None, 1, 2, 3])     # documented as ignored in the (default) UNPACK mode
+        if sq is not None:
+            spl["split_quantity"] = sq
         nodes.append(spl)
         for i in range(n_mid):
             edges.append(edge_spec(g, p, "E%d" % ne, "C0", "X0", ["Buffer"]))
